@@ -12,7 +12,7 @@
      for every admitted query, fault script and arrival pattern: exactly one reply reaches
      the client's socket, no later than querytimeout + margin; expiry/cancel/capacity
      refusal is a SERVFAIL to that client only; after load stops the server is quiescent. *)
-From Sdns Require Import Common.Base Gen.C11 C11.Model C11.Proofs_Writer C11.Proofs_WG C11.Proofs_Req C11.Proofs_World C11.Proofs_Lazy C11.Stream C11.Proofs_Stream C11.Regroup C11.Proofs_Regroup.
+From Sdns Require Import Common.Base Gen.C11 C11.Model C11.Proofs_Writer C11.Proofs_WG C11.Proofs_Req C11.Proofs_World C11.Proofs_Lazy C11.Stream C11.Proofs_Stream C11.Regroup C11.Proofs_Regroup C11.Proofs_Live.
 
 (* ---- translator ties ---- *)
 Theorem writer_sentinels_consistent :
@@ -209,3 +209,25 @@ Theorem stream_reading_client_exactly_one_reply : forall qt frames c,
   seq 1 (s_served (serve_conn c qt (S (length (tc_chunks c))) frames 1 w_first (st0 c))).
 Proof. exact reading_client_exactly_once. Qed.
 Print Assumptions stream_reading_client_exactly_one_reply.
+
+(* ---- no wedge in the composed cache-level world (session 3) ---- *)
+(* When nobody can move, an arrived request that has not finished is blocked for one of three
+   reasons only: it follows a generation that is still LIVE and its own context is alive; it is
+   inside a downstream call that has not returned; or its previous-generation index dangles
+   (not reachable: previous generations are join results - not proved unreachable here). *)
+Theorem no_wedge_when_quiescent : forall w i q,
+  quiescent w -> nth_error (reqs w) i = Some q -> q_arrived q = true -> is_end (q_st q) = false ->
+  blocked w q.
+Proof. exact quiescent_only_blocked. Qed.
+Print Assumptions no_wedge_when_quiescent.
+
+(* ... so a request whose own context has ended (deadline fired, client gone) is unfinished
+   only as the caller of a downstream handler that ignores its context and was not released:
+   nobody stays parked behind a dead generation or a finished leader. *)
+Theorem ended_context_unfinished_only_downstream : forall w i q,
+  quiescent w -> nth_error (reqs w) i = Some q -> q_arrived q = true -> is_end (q_st q) = false ->
+  q_ctx q <> CNone ->
+  (exists lead, r_pc (q_st q) = PDown lead /\ q_hold q = HUntilRelease /\ q_released q = false) \/
+  (exists l k p, r_pc (q_st q) = PJoining l /\ join_op l = ORegroup k (Some p) /\ nth_error (gens (wwg w)) p = None).
+Proof. exact ended_context_only_in_downstream. Qed.
+Print Assumptions ended_context_unfinished_only_downstream.
